@@ -131,6 +131,8 @@ def roundtrip_judge(ctx, which):
         if not r.startswith("ok\t"):
             return
         selfies = dec(r.split("\t")[1])
+        if any(k in selfies for k in ("Ring4]", "Branch4]", "Ring5]", "Branch5]", "Ring6]", "Branch6]")):
+            return      # ring span / branch length >= 16^3: outside the property's domain (documented limit)
         try:
             out = sf.decoder(selfies)
         except Exception as e:  # noqa
